@@ -23,7 +23,9 @@ RULE = ("call sequences over {getnames, list, getinfo, archiveinfo, test, testzi
         "sequences of length <= 3 (quick) / <= 4 (thorough) + random longer ones, on single- and multi-folder, plain and encrypted, intact and data-damaged "
         "archives, opened by path and from a stream; ended by close(), context exit, or an exception thrown from a WriterFactory. Oracle: every call's "
         "normalised result equals the same call on a freshly opened archive (exceptions compared by class); test()/testzip() verdicts right for "
-        "intact/damaged; SHA-256+size of the file unchanged; no write/truncate reaches a caller-supplied stream (write log). Cell = (archive, open mode, sequence shape).")
+        "intact/damaged; SHA-256+size of the file unchanged; no write/truncate reaches a caller-supplied stream (write log). Special shapes: the archive holds a member "
+        "with its own file name and is extracted into its own directory; every folder damaged (testzip by path, 80 calls, must name what the stream session names); two "
+        "members in two folders whose names spell one output path (extractall by path, 12 runs, must equal the stream session's tree); write calls on a mode 'r' session. Cell = (archive, open mode, sequence shape).")
 EXHAUSTIVE = {"quick": "all legal call sequences of length <= 3 on 6 archives x {path, stream}", "thorough": "all legal call sequences of length <= 4 on 12 archives x {path, stream}"}
 
 
@@ -78,6 +80,9 @@ def cases(rng, tier):
         rng.shuffle(ver)
         for mode in ("path", "stream"):
             out.append({"arc": a, "open": mode, "seqs": ver[:80], "damage": ["set", pos, (bytes.fromhex(a["hex"])[pos] ^ 0x5A)], "end": "close"})
+    # shapes in which a read session can reach its own archive or depend on which worker is first
+    for i in range(12 if tier == "quick" else 120):
+        out.append({"kind": "special", "shape": ["self-overwrite", "multi-damage", "same-output-path", "write-in-read-mode"][i % 4], "variant": i // 4, "seed": rng.getrandbits(32)})
     return out
 
 
@@ -147,11 +152,177 @@ def _norm_call(z, op, names, d, counter):
     raise ValueError(op)
 
 
+def _run_special(case):
+    import py7zr
+
+    from vf.ref7z import writer as W
+
+    r = random.Random(case["seed"])
+    shape, var = case["shape"], case["variant"]
+    viol = []
+    obs = {k: 0 for k in REQUIRED_OBS}
+    obs["special_shapes"] = 1
+
+    def fmem(name, data, i=0):
+        return {"name": name, "kind": "file", "data": data, "attributes": 0x20 | 0x8000 | (0o100644 << 16), "mtime": 132000000000000000 + i}
+
+    with pz.scratch("vf-c12s-") as d:
+        if shape == "self-overwrite":
+            # the archive lies in the directory it is extracted into and holds a member with the archive's own name
+            aname = ["backup.7z", "data", "a.b.7z"][var % 3]
+            kind = ["file", "symlink", "emptyfile"][(var // 3) % 3]
+            mem = [fmem("first.txt", b"first" * 10)]
+            if kind == "file":
+                mem.append(fmem(aname, b"PAYLOAD-OF-THE-MEMBER" * 5, 1))
+            elif kind == "symlink":
+                mem.append({"name": aname, "kind": "symlink", "data": b"first.txt", "attributes": 0x20 | 0x400 | 0x8000 | (0o120777 << 16), "mtime": 132000000000000001})
+            else:
+                mem.append({"name": aname, "kind": "emptyfile", "attributes": 0x20 | 0x8000 | (0o100644 << 16), "mtime": 132000000000000001})
+            mem.append(fmem("last.txt", b"last" * 10, 2))
+            nstream = sum(1 for m in mem if m["kind"] in ("file", "symlink"))
+            data = W.build(mem, {"folders": [{"n": nstream, "chain": [{"m": "COPY"}], "crc": "sub"}], "header": "raw"})
+            path = os.path.join(d, aname)
+            for how in ("path", "fileobj"):
+                for call in ("extractall", "extract"):
+                    with open(path, "wb") as f:
+                        f.write(data)
+                    h0 = hashlib.sha256(data).hexdigest()
+                    fobj = None
+                    try:
+                        src = path if how == "path" else open(path, "rb")
+                        fobj = None if how == "path" else src
+                        with py7zr.SevenZipFile(src, "r") as z:
+                            if call == "extractall":
+                                z.extractall(path=d)
+                            else:
+                                z.extract(path=d, targets=[aname])
+                        outcome = "completed"
+                    except Exception as e:
+                        outcome = "raised " + type(e).__name__
+                    finally:
+                        if fobj is not None:
+                            fobj.close()
+                    obs["file_hash_checks"] += 1
+                    obs["sessions"] += 1
+                    try:
+                        st = os.lstat(path)
+                        now = None if not os.path.isfile(path) or os.path.islink(path) else hashlib.sha256(open(path, "rb").read()).hexdigest()
+                    except OSError:
+                        now = None
+                    if now != h0:
+                        what = "is gone or no longer a regular file" if now is None else "has other contents (%d bytes)" % os.path.getsize(path)
+                        viol.append({"key": "archive-modified/self-overwrite/%s" % kind, "what": "archive %r holding a %s member %r, opened by %s, %s into its own directory (%s): the archive %s" % (
+                            aname, kind, aname, how, call, outcome, what)})
+                    for fn in os.listdir(d):
+                        p_ = os.path.join(d, fn)
+                        if os.path.islink(p_) or os.path.isfile(p_):
+                            os.unlink(p_)
+            cell = "special|self-overwrite|%s" % kind
+        elif shape == "multi-damage":
+            # every folder damaged: which member testzip() names must not depend on which worker finishes first
+            nf = 3 + var % 3
+            mem = [fmem("f%d.bin" % i, r.randbytes(3000 + 500 * i), i) for i in range(nf)]
+            data = bytearray(W.build(mem, {"folders": [{"n": 1, "chain": [{"m": "COPY"}], "crc": "sub"} for _ in mem], "header": "raw"}))
+            pos = 32
+            for m in mem:
+                data[pos + len(m["data"]) // 2] ^= 0x41
+                pos += len(m["data"])
+            data = bytes(data)
+            path = os.path.join(d, "dmg.7z")
+            with open(path, "wb") as f:
+                f.write(data)
+            with py7zr.SevenZipFile(io.BytesIO(data), "r") as z:
+                want = z.testzip()
+            got = {}
+            for i in range(40):
+                with py7zr.SevenZipFile(path, "r") as z:
+                    v = z.testzip()
+                    got[v] = got.get(v, 0) + 1
+                    z.reset()
+                    v = z.testzip()
+                    got[v] = got.get(v, 0) + 1
+                obs["sessions"] += 1
+                obs["calls_compared_with_fresh"] += 2
+            if want is None or set(got) != {want}:
+                viol.append({"key": "verdict-not-repeatable/testzip/multi-damage", "what": "%d folders, each damaged: testzip() from a stream names %r; by path, 80 calls: %r" % (nf, want, got)})
+            cell = "special|multi-damage|f%d" % nf
+        elif shape == "same-output-path":
+            # two members in different folders whose names are different spellings of one output path
+            big = r.randbytes(2_500_000)
+            alt = ["x/../a.txt", "./a.txt", "x/.././a.txt"][var % 3]
+            mem = [fmem("a.txt", big, 0), fmem(alt, b"small-one" * 3, 1)]
+            data = W.build(mem, {"folders": [{"n": 1, "chain": [{"m": "COPY"}], "crc": "sub"}, {"n": 1, "chain": [{"m": "COPY"}], "crc": "sub"}], "header": "raw"})
+            path = os.path.join(d, "two.7z")
+            with open(path, "wb") as f:
+                f.write(data)
+
+            def tree(src, out):
+                try:
+                    with py7zr.SevenZipFile(src, "r") as z:
+                        z.extractall(out)
+                    return {p_: (r_["kind"], hashlib.sha256(r_.get("data") or b"").hexdigest()[:12]) for p_, r_ in pz.walk_tree(out).items()}
+                except Exception as e:
+                    return "raised " + type(e).__name__
+
+            want = tree(io.BytesIO(data), os.path.join(d, "seq"))
+            outcomes = {}
+            for i in range(12):
+                t = tree(path, os.path.join(d, "par%d" % i))
+                outcomes[json_key(t)] = outcomes.get(json_key(t), 0) + 1
+                obs["sessions"] += 1
+                obs["calls_compared_with_fresh"] += 1
+            if set(outcomes) != {json_key(want)}:
+                viol.append({"key": "extractall-not-repeatable/same-output-path", "what": "members 'a.txt' and %r in two folders: extractall(path) from a stream gives %s; by path, 12 runs: %r" % (
+                    alt, json_key(want)[:120], {k[:80]: v for k, v in outcomes.items()})})
+            cell = "special|same-output-path|%s" % alt
+        else:
+            mem = [fmem("a.txt", b"aaaa" * 100)]
+            data = W.build(mem, {"folders": [{"n": 1, "chain": [{"m": "LZMA2"}], "crc": "sub"}], "header": "lzma+crc"})
+            t = TraceIO(data)
+            src_file = os.path.join(d, "src.txt")
+            with open(src_file, "wb") as f:
+                f.write(b"source")
+            with py7zr.SevenZipFile(t, "r") as z:
+                for call in ("writestr", "writef", "write", "writeall"):
+                    try:
+                        if call == "writestr":
+                            z.writestr(b"x" * 50, "new.txt")
+                        elif call == "writef":
+                            z.writef(io.BytesIO(b"y" * 50), "new2.txt")
+                        elif call == "write":
+                            z.write(src_file, "new3.txt")
+                        else:
+                            z.writeall(src_file, "new4.txt")
+                        viol.append({"key": "write-accepted-in-read-mode/%s" % call, "what": "%s() on a session opened with mode 'r' returned normally; names now %r" % (call, z.getnames())})
+                    except Exception:
+                        obs["writes_refused_in_read_mode"] = obs.get("writes_refused_in_read_mode", 0) + 1
+            obs["stream_write_log_checks"] += 1
+            obs["sessions"] += 1
+            if t.mutations or t.getvalue() != data:
+                viol.append({"key": "stream-mutated/write-in-read-mode", "what": "write calls on a mode 'r' session changed the caller's stream: %r" % t.mutations[:3]})
+            cell = "special|write-in-read-mode"
+    sample = {"special": shape, "variant": var}
+    if viol:
+        seen = {}
+        for v in viol:
+            seen.setdefault(v["key"], v)
+        return K.result("violated", violations=list(seen.values()), cells=[cell], obs=obs, sample=sample)
+    return K.result("held", cells=[cell], obs=obs, sample=sample)
+
+
+def json_key(x):
+    import json
+
+    return json.dumps(x, sort_keys=True, default=str)
+
+
 def run_case(case):
     import py7zr
 
     from vf.core import worker as WK
 
+    if case.get("kind") == "special":
+        return _run_special(case)
     a = case["arc"]
     data = bytes.fromhex(a["hex"])
     damaged = case["damage"] is not None
